@@ -151,6 +151,12 @@ def gen_history(rng, length):
             if rng.random() < 0.3:
                 # the request came through a proxy: a lower Via whose branch / sent-by are those of other messages of the history
                 ev += ":%s!%s" % (rng.choice(SENT_BY), rng.choice(BRANCHES))
+            elif ref.clients and rng.random() < 0.15:
+                # a request that carries the branch and CSeq method of one of our own client transactions (our request reflected by a peer, a
+                # call to our own address): it never matches a transaction of the opposite role - it is a new request
+                idx = rng.choice(sorted(ref.clients))
+                kind = ref.table[ref.clients[idx]]["kind"]
+                ev = "M:q:%s:%s:1:@%s:x:f:h1" % (kind, kind, idx)
         elif r < 0.72 and ref.clients:
             idx = rng.choice(sorted(ref.clients))
             kind = ref.table[ref.clients[idx]]["kind"]
@@ -235,6 +241,8 @@ def gen_cases(rng, tier):
           ("C:0:INVITE,M:r:180:INVITE:1:z9hG4bKforeign:x:f:h2:h1!@0,M:r:180:INVITE:1:@0:x:f:h1:h2!z9hG4bKforeign,M:r:200:INVITE:1:@0:x:f:h1"),
           ("M:q:OPTIONS:OPTIONS:1:old1:x:f:h1:h2!old1,M:q:OPTIONS:OPTIONS:1:old1:x:f:h2:h1!old1,M:q:OPTIONS:OPTIONS:1:old1:x:f:h1:h1~5070!old2"),
           ("M:q:BYE:BYE:2:old1:x:f:h1:h2!z9hG4bKa,M:q:BYE:BYE:2:z9hG4bKa:x:f:h2:h1!old1,M:q:BYE:BYE:2:old1:x:f:h1")]
+    pv += ["C:0:OPTIONS,M:q:OPTIONS:OPTIONS:1:@0:x:f:h1,M:r:200:OPTIONS:1:@0:x:f:h1", "C:0:INVITE,M:q:INVITE:INVITE:1:@0:x:f:h1,M:q:ACK:ACK:1:@0:x:f:h1,M:r:486:INVITE:1:@0:x:f:h1",
+           "C:0:BYE,C:1:OPTIONS,M:q:BYE:BYE:1:@0:y:g:h2,M:q:BYE:BYE:1:@0:y:g:h2,M:r:200:BYE:1:@0:x:f:h1,M:q:OPTIONS:OPTIONS:1:@1:x:f:h1"]
     for i, evs in enumerate(pv):
         cases.append(["pv%d" % i, "c04", evs])
     # any number of copies of a request nobody has answered yet: each is absorbed by the transaction that holds the first (the
